@@ -188,14 +188,21 @@ def r2_dtype(R) -> None:
         calls = [x for x in ast.walk(g.fi.node) if is_self_call(x, '__setattr__')]
         R.require(q, len(calls), 'self.__setattr__(name, <row>) per row', fi=g.fi, minimum=2, pred=lambda x: is_self_call(x, '__setattr__'))
         for c in calls:
-            v = c.args[1]
-            old = None
+            if len(c.args) != 2:
+                continue
+            cn = [n for n in g.cfg.nodes if n.ast is not None and n.kind == 'stmt' and any(x is c for x in ast.walk(n.ast))]
+            if not cn:
+                raise Unsupported(f'{q}: __setattr__ call not found in the CFG')
+            lt = tuple(x.id for lid in cn[0].loops for x in ast.walk(g.cfg.nodes[lid].ast.target) if isinstance(x, ast.Name)) if cn[0].loops else ()
+            v = g.expand(cn[0].id, c.args[1], stop=lt)
+            nm_ = text(c.args[0])
+            olds = {f"self.__getattribute__('_' + {nm_})", f"self.__dict__['_' + {nm_}]", f"getattr(self, '_' + {nm_})", f'self[{nm_}]', f'self.__getitem__({nm_})'}
             ok = False
-            if method_call(v, 'astype'):
-                ok = text(v.args[0]).endswith('.dtype') and "'_' + name" in text(v.args[0])
-            elif is_call(v, 'np.full'):
+            if method_call(v, 'astype') and len(v.args) == 1:
+                ok = text(v.args[0]) in {o + '.dtype' for o in olds}
+            elif is_call(v, 'np.full', 'numpy.full') and v.args:
                 d = kwarg(v, 'dtype')
-                ok = d is not None and text(d) == 'series.dtype' and text(v.args[0]) == 'series.shape'
+                ok = d is not None and text(d) in {o + '.dtype' for o in olds} and text(v.args[0]) in {o + '.shape' for o in olds}
             R.check(ok, q, f'values-row:{text(v)[:50]}', 'each row is coerced to the dtype (and shape) of the series it replaces',
                     f'`{text(v)[:70]}` does not coerce the row to the existing series dtype', where=f'{g.fi.module.relpath}:{c.lineno}')
         # shape check raises DimensionError
@@ -288,8 +295,21 @@ def r4_strict(R) -> None:
             'no get_closest_match() in the strict error path', where=f.fi.where)
 
 
-def _names_list_of_values(fi) -> Optional[str]:
-    for n in ast.walk(fi.node):
+def _names_list_of_values(fi, R=None) -> Optional[str]:
+    cands = list(ast.walk(fi.node))
+    if R is not None:
+        # a list filled by one append in one loop is read as the comprehension it is equivalent to
+        try:
+            f = Fn(R, fi.qualname)
+            for r in f.returns():
+                for x in ast.walk(r.ast.value) if r.ast.value is not None else []:
+                    if isinstance(x, ast.Name):
+                        lc = f.as_listcomp(r.id, x)
+                        if lc is not None:
+                            cands.append(lc)
+        except (Unsupported, AnchorMissing):
+            pass
+    for n in cands:
         if isinstance(n, ast.ListComp) and is_call(n.elt, 'self.__getattribute__') or (isinstance(n, ast.ListComp) and dict_slot(n.elt) is not None):
             g = n.generators[0]
             arg = n.elt.args[0] if isinstance(n.elt, ast.Call) else dict_slot(n.elt)[1]
@@ -323,7 +343,7 @@ def r5_values_size(R) -> None:
         fs = resolve_method(R.repo, mro, 'size')
         if fv is None or fs is None:
             raise AnchorMissing(f'{cls_q}: values/size not resolvable')
-        lv = _names_list_of_values(fv)
+        lv = _names_list_of_values(fv, R)
         ls = _names_list_of_size(fs)
         if lv is None:
             raise Unknown(f'{fv.qualname}: `values` is not a stack of "_"+name over a name list')
